@@ -18,7 +18,9 @@ From TS Require Import Model.WideBackends Model.Nearest.
 Definition run_nearest_map (l : list Z) : list Z :=
   match l with
   | [kind; sw; sh; ox; oy; spread; w; h] =>
-      let tx := F32.of_Z ox in let ty := F32.of_Z oy in
+      (* kind 2: the translation is (ox / 2, oy / 2): odd values put every pixel centre on a source pixel boundary *)
+      let tx := if kind =? 2 then F32.mul (F32.of_Z ox) F32.half else F32.of_Z ox in
+      let ty := if kind =? 2 then F32.mul (F32.of_Z oy) F32.half else F32.of_Z oy in
       let '(lft, rgt, top, bottom, spread) :=
         if kind =? 0 then (Z.max ox 0, Z.min (ox + sw) w, Z.max oy 0, Z.min (oy + sh) h, 0)
         else (0, w, 0, h, spread) in
